@@ -292,7 +292,7 @@ def conformance(scn_by_name, traces):
         ok = True
         for i, x in exp["el"].items():
             sn = snaps.get(i)
-            if sn is None or bool(sn["leader"]) != bool(x["leader"]) or (x["life"] in ("running", "stopped") and sn["state"] != x["state"]):
+            if sn is None or bool(sn["leader"]) != bool(x["leader"]) or (x["life"] in ("running", "stopped", "halted") and sn["state"] != x["state"]):
                 ok = False
                 st["disagreements"].append({"scenario": name, "instance": i, "model": x, "real": sn and {"leader": sn["leader"], "state": sn["state"]}})
         if (exp["rec"]["kind"] == "val") != (end.get("rec_kind") == "val") or (exp["rec"]["kind"] == "val" and exp["rec"]["id"] != end.get("id")):
